@@ -158,6 +158,10 @@ func (a *archetype) Remove(index uint32) bool {
 			}
 			src := unsafe.Add(lay.pointer, old*size)
 			dst := unsafe.Add(lay.pointer, index*size)
+			if tp, ok := a.node.pointerTypes.Get(id.id); ok {
+				copyTyped(tp, src, dst)
+				continue
+			}
 			a.copy(src, dst, size)
 		}
 	}
@@ -185,6 +189,10 @@ func (a *archetype) Zero(index uint32, id ID) {
 		return
 	}
 	dst := unsafe.Add(lay.pointer, index*size)
+	if tp, ok := a.node.pointerTypes.Get(id.id); ok {
+		zeroTyped(tp, dst)
+		return
+	}
 	a.copy(a.node.zeroPointer, dst, size)
 }
 
@@ -205,6 +213,10 @@ func (a *archetype) Set(index uint32, id ID, comp interface{}) unsafe.Pointer {
 	rValue := reflect.ValueOf(comp)
 
 	src := rValue.UnsafePointer()
+	if tp, ok := a.node.pointerTypes.Get(id.id); ok {
+		copyTyped(tp, src, dst)
+		return dst
+	}
 	a.copy(src, dst, size)
 	return dst
 }
@@ -218,6 +230,10 @@ func (a *archetype) SetPointer(index uint32, id ID, comp unsafe.Pointer) unsafe.
 		return dst
 	}
 
+	if tp, ok := a.node.pointerTypes.Get(id.id); ok {
+		copyTyped(tp, comp, dst)
+		return dst
+	}
 	a.copy(comp, dst, size)
 	return dst
 }
